@@ -73,6 +73,21 @@ def widen_arrays(obj, n=600):
     return dataclasses.replace(obj, **ch) if ch else obj
 
 
+def widen_struct_arrays(obj, n=130):
+    """`obj` with every non-empty array of structures repeated up to `n` elements (the array length then
+    needs a multi-byte varint), nested ones in the first element too"""
+    import dataclasses
+    if not dataclasses.is_dataclass(obj) or isinstance(obj, type):
+        return obj
+    ch = {}
+    for f in dataclasses.fields(obj):
+        v = getattr(obj, f.name)
+        if isinstance(v, tuple) and v and dataclasses.is_dataclass(v[0]):
+            first = widen_struct_arrays(v[0], max(2, n // 40))
+            ch[f.name] = (first,) + tuple(v[j % len(v)] for j in range(1, n))
+    return dataclasses.replace(obj, **ch) if ch else obj
+
+
 class ReadOnlySource:
     """exposes only read(n) with an explicit non-negative int"""
     __slots__ = ("_data", "pos", "bad")
